@@ -76,13 +76,13 @@ func (b *Buffer[T]) Sample(i int) T {
 // bit depth, otherwise function will panic.
 func (dst *Buffer[D]) Append(src *Buffer[D]) {
 	mustSame(dst.Channels(), src.Channels(), diffChannels)
-	offset := dst.Len()
-	if dst.Cap() < dst.Len()+src.Len() {
-		dst.data = append(dst.data, make([]D, src.Len())...)
+	offset, length := dst.Len(), src.Len()
+	if dst.Cap() < offset+length {
+		dst.data = append(dst.data, make([]D, length)...)
 	} else {
-		dst.data = dst.data[:dst.Len()+src.Len()]
+		dst.data = dst.data[:offset+length]
 	}
-	for i := 0; i < src.Len(); i++ {
+	for i := 0; i < length; i++ {
 		dst.SetSample(i+offset, src.Sample(i))
 	}
 	alignCapacity(&dst.data, dst.Channels(), dst.Cap())
